@@ -245,7 +245,7 @@ func runC02(r *Report) {
 			if _, f, _, ok := FieldOf(c.Call.Args[0]); !ok || f != "tunnelBridges" {
 				return false
 			}
-			return lockSetsOf(in.Parent()).Held(in, "bridgeLock") == "W"
+			return r.held(lockSetsOf(in.Parent()), in, "internal/protocol/session", "SessionManager", "bridgeLock") == "W"
 		}
 		var ls *LockSets
 		for _, ret := range Returns(lc) {
@@ -259,7 +259,7 @@ func runC02(r *Report) {
 					if g := resolveClosure(d.Call.Value, lc, 0); g != nil && g.Parent() == lc {
 						gls := ComputeLockSets(g, nil)
 						for _, del := range mapDeletes(g, "tunnelBridges") {
-							if gls.Held(del, "bridgeLock") == "W" {
+							if r.held(gls, del, "internal/protocol/session", "SessionManager", "bridgeLock") == "W" {
 								return true
 							}
 						}
@@ -280,7 +280,7 @@ func runC02(r *Report) {
 				if ls == nil {
 					ls = ComputeLockSets(lc, nil)
 				}
-				return ls.Held(in, "bridgeLock") == "W"
+				return r.held(ls, in, "internal/protocol/session", "SessionManager", "bridgeLock") == "W"
 			})
 			r.Ob("R-C02-3", ret.Pos(), okDel, "every exit of the bridge lifecycle removes the bridge from tunnelBridges under bridgeLock (the server forgets the tunnel)", "runBridgeLifecycle", "forgets-bridge")
 			okClose := !ReachesWithout(lc, ret, func(in ssa.Instruction) bool {
